@@ -13,6 +13,7 @@ structure TInv (kinds : List PKind) (g : TSt) (r : Spec.TP.Ref) : Prop where
   inv : Inv kinds g.st r
   pend : ∀ i, g.pendS i ≠ 0 →
     isStock (kindOf kinds i) = true ∧ r.raced i = true ∧ (g.st.pool i).cnt.s + g.pendS i ≤ 1
+  sum : ∀ i, isStock (kindOf kinds i) = true → r.raced i = true → (g.st.pool i).cnt.s + g.pendS i = 1
 
 theorem landProc_zero (p : PS) : landProc 0 0 p = p := by
   obtain ⟨kind, ⟨a, e, f, s, n⟩, st, q⟩ := p
@@ -34,198 +35,344 @@ theorem raced_s (kd : PKind) (p : PS) (deliv k x m : Nat) (h : CompInv kd p fals
   cases kind <;> simp_all [iter_shutdownD, CompInv, isStock]
 
 
-theorem tstep_inv {kinds g r} (op : TOp) (h : TInv kinds g r) :
-    TInv kinds (tstep g op).1 (tcheckStep kinds r op (snapOf g.st) (snapOf (tstep g op).1.st) (tstep g op).2).2 ∧
-    (tcheckStep kinds r op (snapOf g.st) (snapOf (tstep g op).1.st) (tstep g op).2).1 = Spec.Fails.none := by
-  cases op with
-  | api o =>
-    obtain ⟨h1, h2⟩ := Lemmas.step_inv o h.inv
-    refine ⟨⟨h1, ?_⟩, h2⟩
-    intro i hp
+theorem count_any (l : List (Nat × Bool)) (i : Nat) (h : (ids l).count i ≠ 0) :
+    l.any (fun p => p.1 == i) = true := by
+  have : i ∈ ids l := List.count_pos_iff.mp (Nat.pos_of_ne_zero h)
+  simp only [ids, List.mem_map] at this
+  obtain ⟨p, hp, rfl⟩ := this
+  simp only [List.any_eq_true, beq_iff_eq]
+  exact ⟨p, hp, rfl⟩
+
+/-- a live stock processor raced by this provider Shutdown: what it has seen when the call returns -/
+theorem raced_here {kinds g r} (o : TP.Op) (h : TInv kinds g r) (i : Nat) (hrh : racedHere g.st o i = true) :
+    isStock (kindOf kinds i) = true ∧ (Spec.TP.refStep r o (TP.step g.st o).2).raced i = true ∧
+    ((TP.step g.st o).1.pool i).cnt.s = min (chK o i) 1 := by
+  cases o with
+  | shutdown c ch =>
+    simp only [racedHere, Bool.and_eq_true, Bool.not_eq_true', Bool.or_eq_true, beq_iff_eq] at hrh
+    obtain ⟨⟨⟨⟨hd, hns⟩, hany⟩, hnst⟩, hkd⟩ := hrh
+    have hkind := compInvR_kind _ _ _ _ _ (h.inv.comp i)
+    have hstock : isStock (kindOf kinds i) = true := by
+      rw [← hkind]; rcases hkd with hkd | hkd <;> simp [isStock, hkd]
+    have hrs : r.mem.shut = false := by rw [← h.inv.shut]; exact hns
+    have hnr : r.raced i = false := by
+      cases hr : r.raced i with
+      | false => rfl
+      | true => have := h.inv.racedshut i hr; rw [hrs] at this; cases this
+    have hci := compInvR_elim _ _ _ _ _ (h.inv.comp i) (Or.inr hnr)
+    have hdead : r.dead i = false := by
+      have := hci.2
+      cases hk : kindOf kinds i <;> simp only [hk] at this hstock <;> simp_all [isStock]
+    have hm : r.mem.mult i ≠ 0 := by rw [← h.inv.mult i]; exact any_count _ _ hany
+    have htrig : trigger r.mem (.shutdown c ch) = true := by simp [trigger, hrs, hd]
+    refine ⟨hstock, ?_, ?_⟩
+    · show (r.raced i || Spec.TP.racedNow r (.shutdown c ch) i) = true
+      simp [Spec.TP.racedNow, hd, hm, hdead]
+    · rw [step_pool_raced c ch h.inv htrig i, raced_s _ _ _ _ _ _ (hdead ▸ hci) hstock hm]
+      rfl
+  | _ => simp [racedHere] at hrh
+
+/-- a stock processor the reference marks as raced by this step is raced in the model too -/
+theorem racedNow_here {kinds g r} (o : TP.Op) (h : TInv kinds g r) (i : Nat) (hst : isStock (kindOf kinds i) = true)
+    (hnr : r.raced i = false) (hrn : Spec.TP.racedNow r o i = true) : racedHere g.st o i = true := by
+  cases o with
+  | shutdown c ch =>
+    simp only [Spec.TP.racedNow, Bool.and_eq_true, bne_iff_ne, ne_eq, Bool.not_eq_true'] at hrn
+    obtain ⟨⟨hd, hm⟩, hdead⟩ := hrn
+    have hkind := compInvR_kind _ _ _ _ _ (h.inv.comp i)
+    have hci := compInvR_elim _ _ _ _ _ (h.inv.comp i) (Or.inr hnr)
+    have hcnt : (ids g.st.procs).count i ≠ 0 := by rw [h.inv.mult i]; exact hm
+    have hns : g.st.isShutdown = false := by
+      cases hs : g.st.isShutdown with
+      | false => rfl
+      | true =>
+        have := h.inv.shutnil (by rw [← h.inv.shut]; exact hs)
+        rw [this] at hcnt; simp [ids] at hcnt
+    have hstop : (g.st.pool i).stopped = false := by
+      have := hci.2
+      cases hk : kindOf kinds i <;> simp only [hk] at this hst <;> simp_all [isStock]
+    have hk2 : (g.st.pool i).kind = .simpleRec ∨ (g.st.pool i).kind = .batchRec := by
+      rw [hkind]; cases hk : kindOf kinds i <;> simp_all [isStock]
+    simp only [racedHere, Bool.and_eq_true, Bool.not_eq_true', Bool.or_eq_true, beq_iff_eq]
+    exact ⟨⟨⟨⟨hd, hns⟩, count_any _ _ hcnt⟩, hstop⟩, hk2⟩
+  | _ => simp [Spec.TP.racedNow] at hrn
+
+theorem api_inv {kinds g r} (o : TP.Op) (h : TInv kinds g r) :
+    TInv kinds (tstep g (.api o)).1 (Spec.TP.refStep r o (TP.step g.st o).2) ∧
+    Spec.TP.checkStep kinds r o (snapOf g.st) (snapOf (TP.step g.st o).1) (TP.step g.st o).2 = Spec.Fails.none := by
+  obtain ⟨h1, h2⟩ := Lemmas.step_inv o h.inv
+  have hraced : ∀ i, (Spec.TP.refStep r o (TP.step g.st o).2).raced i = (r.raced i || Spec.TP.racedNow r o i) :=
+    fun _ => rfl
+  -- a processor raced before keeps its exporter-shutdown count
+  have hkeep : ∀ i, isStock (kindOf kinds i) = true → r.raced i = true →
+      ((TP.step g.st o).1.pool i).cnt.s = (g.st.pool i).cnt.s := by
+    intro i p1 p2
     obtain ⟨_, c2⟩ := step_comp o h.inv i
-    have hraced : (Spec.TP.refStep r o (TP.step g.st o).2).raced i = (r.raced i || Spec.TP.racedNow r o i) := rfl
+    revert c2
+    rw [p2]
+    cases hk : kindOf kinds i <;> simp only [hk] at p1 <;> simp_all [StepOKR, isStock]
+  refine ⟨⟨h1, ?_, ?_⟩, h2⟩
+  · intro i hp
     show isStock (kindOf kinds i) = true ∧ (Spec.TP.refStep r o (TP.step g.st o).2).raced i = true ∧
       ((TP.step g.st o).1.pool i).cnt.s + (if racedHere g.st o i then 1 - min (chK o i) 1 else g.pendS i) ≤ 1
     change (if racedHere g.st o i then 1 - min (chK o i) 1 else g.pendS i) ≠ 0 at hp
     cases hrh : racedHere g.st o i with
     | true =>
-      cases o with
-      | shutdown c ch =>
-        simp only [racedHere, Bool.and_eq_true, Bool.not_eq_true', Bool.or_eq_true, beq_iff_eq] at hrh
-        obtain ⟨⟨⟨⟨hd, hns⟩, hany⟩, hnst⟩, hkd⟩ := hrh
-        have hkind := compInvR_kind _ _ _ _ _ (h.inv.comp i)
-        have hstock : isStock (kindOf kinds i) = true := by
-          rw [← hkind]; rcases hkd with hkd | hkd <;> simp [isStock, hkd]
-        have hrs : r.mem.shut = false := by rw [← h.inv.shut]; exact hns
-        have hnr : r.raced i = false := by
-          cases hr : r.raced i with
-          | false => rfl
-          | true => have := h.inv.racedshut i hr; rw [hrs] at this; cases this
-        have hci := compInvR_elim _ _ _ _ _ (h.inv.comp i) (Or.inr hnr)
-        have hdead : r.dead i = false := by
-          have := hci.2
-          cases hk : kindOf kinds i <;> simp only [hk] at this hstock <;> simp_all [isStock]
-        have hm : r.mem.mult i ≠ 0 := by rw [← h.inv.mult i]; exact any_count _ _ hany
-        have htrig : trigger r.mem (.shutdown c ch) = true := by simp [trigger, hrs, hd]
-        refine ⟨hstock, ?_, ?_⟩
-        · rw [hraced]; simp [Spec.TP.racedNow, hd, hm, hdead]
-        · rw [step_pool_raced c ch h.inv htrig i, raced_s _ _ _ _ _ _ (hdead ▸ hci) hstock hm]
-          simp only [↓reduceIte, chK]
-          omega
-      | _ => simp [racedHere] at hrh
+      obtain ⟨q1, q2, q3⟩ := raced_here o h i hrh
+      refine ⟨q1, q2, ?_⟩
+      rw [q3]; simp only [↓reduceIte]; omega
     | false =>
       simp only [hrh, Bool.false_eq_true, ↓reduceIte] at hp ⊢
       obtain ⟨p1, p2, p3⟩ := h.pend i hp
       refine ⟨p1, by rw [hraced, p2]; rfl, ?_⟩
-      have : ((TP.step g.st o).1.pool i).cnt.s = (g.st.pool i).cnt.s := by
-        revert c2
-        rw [p2]
-        cases hk : kindOf kinds i <;> simp only [hk] at p1 <;> simp_all [StepOKR, isStock]
-      rw [this]; exact p3
-  | land ln ls =>
-    -- facts about what can arrive at component i
-    have hS : ∀ i, landS g ls i ≠ 0 → g.pendS i ≠ 0 := by
-      intro i hne hz; apply hne; simp [landS, hz]
-    have hSle : ∀ i, landS g ls i ≤ g.pendS i := fun i => Nat.min_le_right _ _
-    have hraced : ∀ i, (landN g ln i ≠ 0 ∨ landS g ls i ≠ 0) →
-        isStock (kindOf kinds i) = true ∧ r.raced i = true := by
-      intro i hne
-      rcases hne with hne | hne
-      · have hkind := compInvR_kind _ _ _ _ _ (h.inv.comp i)
-        simp only [landN] at hne
-        split at hne
-        · rename_i hc
-          simp only [Bool.and_eq_true, beq_iff_eq] at hc
-          have hq : (g.st.pool i).queued ≠ 0 := by intro hz; apply hne; simp [hz]
-          have hk : kindOf kinds i = .batchRec := by rw [← hkind]; exact hc.1
-          refine ⟨by simp [isStock, hk], ?_⟩
-          cases hr : r.raced i with
-          | true => rfl
-          | false =>
-            have hci := compInvR_elim _ _ _ _ _ (h.inv.comp i) (Or.inr hr)
-            rw [hk] at hci
-            obtain ⟨_, hst, _, _, hdq, _⟩ := hci
-            have : r.dead i = true := by rw [← hst]; exact hc.2
-            exact absurd (hdq this) hq
-        · exact absurd rfl hne
-      · obtain ⟨p1, p2, _⟩ := h.pend i (hS i hne); exact ⟨p1, p2⟩
-    have hNle : ∀ i, landN g ln i ≤ (g.st.pool i).queued := by
-      intro i; simp only [landN]; split
-      · exact Nat.min_le_right _ _
-      · exact Nat.zero_le _
-    have hNk : ∀ i, landN g ln i ≠ 0 → kindOf kinds i = .batchRec := by
-      intro i hne
-      have hkind := compInvR_kind _ _ _ _ _ (h.inv.comp i)
+      rw [hkeep i p1 p2]; exact p3
+  · intro i hst hrc
+    show ((TP.step g.st o).1.pool i).cnt.s + (if racedHere g.st o i then 1 - min (chK o i) 1 else g.pendS i) = 1
+    cases hrh : racedHere g.st o i with
+    | true =>
+      obtain ⟨_, _, q3⟩ := raced_here o h i hrh
+      rw [q3]; simp only [↓reduceIte]; omega
+    | false =>
+      simp only [Bool.false_eq_true, ↓reduceIte]
+      have hrb : r.raced i = true := by
+        cases hr : r.raced i with
+        | true => rfl
+        | false =>
+          rw [hraced, hr, Bool.false_or] at hrc
+          have := racedNow_here o h i hst hr hrc
+          rw [hrh] at this; cases this
+      rw [hkeep i hst hrb]; exact h.sum i hst hrb
+
+theorem land_inv {kinds g r} (ln ls : Nat → Nat) (h : TInv kinds g r) :
+    TInv kinds (landStep g ln ls) r ∧
+    (tcheckStep kinds r (.land ln ls) (snapOf g.st) (snapOf (landStep g ln ls).st) .none).1 = Spec.Fails.none := by
+  -- facts about what can arrive at component i
+  have hS : ∀ i, landS g ls i ≠ 0 → g.pendS i ≠ 0 := by
+    intro i hne hz; apply hne; simp [landS, hz]
+  have hSle : ∀ i, landS g ls i ≤ g.pendS i := fun i => Nat.min_le_right _ _
+  have hraced : ∀ i, (landN g ln i ≠ 0 ∨ landS g ls i ≠ 0) →
+      isStock (kindOf kinds i) = true ∧ r.raced i = true := by
+    intro i hne
+    rcases hne with hne | hne
+    · have hkind := compInvR_kind _ _ _ _ _ (h.inv.comp i)
       simp only [landN] at hne
       split at hne
-      · rename_i hc; simp only [Bool.and_eq_true, beq_iff_eq] at hc; rw [← hkind]; exact hc.1
+      · rename_i hc
+        simp only [Bool.and_eq_true, beq_iff_eq] at hc
+        have hq : (g.st.pool i).queued ≠ 0 := by intro hz; apply hne; simp [hz]
+        have hk : kindOf kinds i = .batchRec := by rw [← hkind]; exact hc.1
+        refine ⟨by simp [isStock, hk], ?_⟩
+        cases hr : r.raced i with
+        | true => rfl
+        | false =>
+          have hci := compInvR_elim _ _ _ _ _ (h.inv.comp i) (Or.inr hr)
+          rw [hk] at hci
+          obtain ⟨_, hst, _, _, hdq, _⟩ := hci
+          have : r.dead i = true := by rw [← hst]; exact hc.2
+          exact absurd (hdq this) hq
       · exact absurd rfl hne
-    simp only [tstep, tcheckStep]
-    refine ⟨⟨⟨h.inv.shut, h.inv.mult, h.inv.tot, h.inv.fresh, h.inv.tr, h.inv.sp, ?_, h.inv.shutnil,
-      h.inv.racedshut⟩, ?_⟩, ?_⟩
-    · -- component invariant
-      intro i
-      show CompInvR (kindOf kinds i) (landProc (landN g ln i) (landS g ls i) (g.st.pool i)) (r.dead i) (r.raced i)
-        (r.deliv i)
-      by_cases hz : landN g ln i = 0 ∧ landS g ls i = 0
-      · rw [hz.1, hz.2, landProc_zero]; exact h.inv.comp i
-      · have hne : landN g ln i ≠ 0 ∨ landS g ls i ≠ 0 := by
+    · obtain ⟨p1, p2, _⟩ := h.pend i (hS i hne); exact ⟨p1, p2⟩
+  have hNle : ∀ i, landN g ln i ≤ (g.st.pool i).queued := by
+    intro i; simp only [landN]; split
+    · exact Nat.min_le_right _ _
+    · exact Nat.zero_le _
+  have hNk : ∀ i, landN g ln i ≠ 0 → kindOf kinds i = .batchRec := by
+    intro i hne
+    have hkind := compInvR_kind _ _ _ _ _ (h.inv.comp i)
+    simp only [landN] at hne
+    split at hne
+    · rename_i hc; simp only [Bool.and_eq_true, beq_iff_eq] at hc; rw [← hkind]; exact hc.1
+    · exact absurd rfl hne
+  simp only [tcheckStep, landStep]
+  refine ⟨⟨⟨h.inv.shut, h.inv.mult, h.inv.tot, h.inv.fresh, h.inv.tr, h.inv.sp, ?_, h.inv.shutnil,
+    h.inv.racedshut⟩, ?_, ?_⟩, ?_⟩
+  · -- component invariant
+    intro i
+    show CompInvR (kindOf kinds i) (landProc (landN g ln i) (landS g ls i) (g.st.pool i)) (r.dead i) (r.raced i)
+      (r.deliv i)
+    by_cases hz : landN g ln i = 0 ∧ landS g ls i = 0
+    · rw [hz.1, hz.2, landProc_zero]; exact h.inv.comp i
+    · have hne : landN g ln i ≠ 0 ∨ landS g ls i ≠ 0 := by
+        by_cases h1 : landN g ln i = 0
+        · exact Or.inr (fun h2 => hz ⟨h1, h2⟩)
+        · exact Or.inl h1
+      obtain ⟨hst, hrc⟩ := hraced i hne
+      have hc := h.inv.comp i
+      rw [hrc, compInvR_raced _ _ _ _ hst] at hc ⊢
+      refine ⟨hc.1, ?_⟩
+      obtain ⟨hk, hstp, hf, hs, hn⟩ := hc.2
+      have hs' : (g.st.pool i).cnt.s + landS g ls i ≤ 1 := by
+        by_cases h2 : landS g ls i = 0
+        · rw [h2]; exact hs
+        · obtain ⟨_, _, p3⟩ := h.pend i (hS i h2); have := hSle i; omega
+      refine ⟨hk, hstp, hf, hs', ?_⟩
+      have hle := hNle i
+      cases hkd : kindOf kinds i
+      case simpleRec =>
+        have h0 : landN g ln i = 0 := by
           by_cases h1 : landN g ln i = 0
-          · exact Or.inr (fun h2 => hz ⟨h1, h2⟩)
-          · exact Or.inl h1
-        obtain ⟨hst, hrc⟩ := hraced i hne
-        have hc := h.inv.comp i
-        rw [hrc, compInvR_raced _ _ _ _ hst] at hc ⊢
-        refine ⟨hc.1, ?_⟩
-        obtain ⟨hk, hstp, hf, hs, hn⟩ := hc.2
-        have hs' : (g.st.pool i).cnt.s + landS g ls i ≤ 1 := by
-          by_cases h2 : landS g ls i = 0
-          · rw [h2]; exact hs
-          · obtain ⟨_, _, p3⟩ := h.pend i (hS i h2); have := hSle i; omega
-        refine ⟨hk, hstp, hf, hs', ?_⟩
-        have hle := hNle i
-        cases hkd : kindOf kinds i
-        case simpleRec =>
-          have h0 : landN g ln i = 0 := by
-            by_cases h1 : landN g ln i = 0
-            · exact h1
-            · have := hNk i h1; rw [hkd] at this; cases this
+          · exact h1
+          · have := hNk i h1; rw [hkd] at this; cases this
+        simp [hkd] at hn
+        simp [landProc, h0, hn]
+      case batchRec =>
+        simp [hkd] at hn
+        simp only [landProc]
+        omega
+      all_goals (rw [hkd] at hst; simp [isStock] at hst)
+  · -- pending exporter shutdowns
+    intro i hp
+    show isStock (kindOf kinds i) = true ∧ r.raced i = true ∧
+      (landProc (landN g ln i) (landS g ls i) (g.st.pool i)).cnt.s + (g.pendS i - landS g ls i) ≤ 1
+    change g.pendS i - landS g ls i ≠ 0 at hp
+    have hp0 : g.pendS i ≠ 0 := by intro hz; apply hp; simp [hz]
+    obtain ⟨p1, p2, p3⟩ := h.pend i hp0
+    refine ⟨p1, p2, ?_⟩
+    have := hSle i
+    simp only [landProc]
+    omega
+  · -- exporter shutdown seen + outstanding = 1 for raced processors
+    intro i hst hrc
+    show (landProc (landN g ln i) (landS g ls i) (g.st.pool i)).cnt.s + (g.pendS i - landS g ls i) = 1
+    have := h.sum i hst hrc
+    have := hSle i
+    simp only [landProc]
+    omega
+  · -- the oracle
+    simp only [Spec.Fails.none, Spec.Fails.mk.injEq, Bool.not_eq_false', Spec.allBelow, List.all_eq_true,
+      Bool.and_eq_true, List.mem_range]
+    refine ⟨?_, ?_, ⟨by decide, ?_⟩, by decide⟩
+    · intro i _
+      refine ⟨⟨by simp [snapOf, landProc], by simp [snapOf, landProc]⟩, ?_⟩
+      have hc := h.inv.comp i
+      have hle := hNle i
+      cases hkd : kindOf kinds i <;> simp only [snapOf, landProc]
+      case batchRec =>
+        cases hrc : r.raced i with
+        | true =>
+          rw [hrc, compInvR_raced _ _ _ _ (by simp [isStock, hkd])] at hc
+          obtain ⟨_, _, _, _, _, hn⟩ := hc
           simp [hkd] at hn
-          simp [landProc, h0, hn]
-        case batchRec =>
-          simp [hkd] at hn
-          simp only [landProc]
-          omega
-        all_goals (rw [hkd] at hst; simp [isStock] at hst)
-    · -- pending exporter shutdowns
-      intro i hp
-      show isStock (kindOf kinds i) = true ∧ r.raced i = true ∧
-        (landProc (landN g ln i) (landS g ls i) (g.st.pool i)).cnt.s + (g.pendS i - landS g ls i) ≤ 1
-      change g.pendS i - landS g ls i ≠ 0 at hp
-      have hp0 : g.pendS i ≠ 0 := by intro hz; apply hp; simp [hz]
-      obtain ⟨p1, p2, p3⟩ := h.pend i hp0
-      refine ⟨p1, p2, ?_⟩
-      have := hSle i
-      simp only [landProc]
-      omega
-    · -- the oracle
-      simp only [Spec.Fails.none, Spec.Fails.mk.injEq, Bool.not_eq_false', Spec.allBelow, List.all_eq_true,
-        Bool.and_eq_true, List.mem_range]
-      refine ⟨?_, ?_, ⟨by decide, ?_⟩, by decide⟩
-      · intro i _
-        refine ⟨⟨by simp [snapOf, landProc], by simp [snapOf, landProc]⟩, ?_⟩
-        have hc := h.inv.comp i
-        have hle := hNle i
-        cases hkd : kindOf kinds i <;> simp only [snapOf, landProc]
-        case batchRec =>
-          cases hrc : r.raced i with
-          | true =>
-            rw [hrc, compInvR_raced _ _ _ _ (by simp [isStock, hkd])] at hc
-            obtain ⟨_, _, _, _, _, hn⟩ := hc
-            simp [hkd] at hn
-            simp only [↓reduceIte, Bool.and_eq_true, decide_eq_true_eq]
-            exact ⟨decide_eq_true (by omega), decide_eq_true (by omega)⟩
-          | false =>
-            have : landN g ln i = 0 := by
-              cases Nat.eq_zero_or_pos (landN g ln i) with
-              | inl h0 => exact h0
-              | inr hpos => have := (hraced i (Or.inl (by omega))).2; rw [hrc] at this; cases this
-            simp [this]
-        all_goals
+          simp only [↓reduceIte, Bool.and_eq_true, decide_eq_true_eq]
+          exact ⟨decide_eq_true (by omega), decide_eq_true (by omega)⟩
+        | false =>
           have : landN g ln i = 0 := by
             cases Nat.eq_zero_or_pos (landN g ln i) with
             | inl h0 => exact h0
-            | inr hpos => have := hNk i (by omega); rw [hkd] at this; cases this
+            | inr hpos => have := (hraced i (Or.inl (by omega))).2; rw [hrc] at this; cases this
           simp [this]
-      · intro i _
-        have hle := hSle i
-        cases hkd : kindOf kinds i <;> simp only [snapOf, landProc]
-        case simpleRec | batchRec =>
-          cases hrc : r.raced i with
-          | true =>
-            simp only [↓reduceIte]
-            by_cases h2 : landS g ls i = 0
-            · have hc := h.inv.comp i
-              rw [hrc, compInvR_raced _ _ _ _ (by simp [isStock, hkd])] at hc
-              obtain ⟨_, _, _, _, hs, _⟩ := hc
-              simp [h2]; exact hs
-            · obtain ⟨_, _, p3⟩ := h.pend i (hS i h2)
-              simp only [Bool.and_eq_true, decide_eq_true_eq]
-              exact ⟨decide_eq_true (by omega), decide_eq_true (by omega)⟩
-          | false =>
-            have : landS g ls i = 0 := by
-              cases Nat.eq_zero_or_pos (landS g ls i) with
-              | inl h0 => exact h0
-              | inr hpos => have := (hraced i (Or.inr (by omega))).2; rw [hrc] at this; cases this
-            simp [this]
-        all_goals
+      all_goals
+        have : landN g ln i = 0 := by
+          cases Nat.eq_zero_or_pos (landN g ln i) with
+          | inl h0 => exact h0
+          | inr hpos => have := hNk i (by omega); rw [hkd] at this; cases this
+        simp [this]
+    · intro i _
+      have hle := hSle i
+      cases hkd : kindOf kinds i <;> simp only [snapOf, landProc]
+      case simpleRec | batchRec =>
+        cases hrc : r.raced i with
+        | true =>
+          simp only [↓reduceIte]
+          by_cases h2 : landS g ls i = 0
+          · have hc := h.inv.comp i
+            rw [hrc, compInvR_raced _ _ _ _ (by simp [isStock, hkd])] at hc
+            obtain ⟨_, _, _, _, hs, _⟩ := hc
+            simp [h2]; exact hs
+          · obtain ⟨_, _, p3⟩ := h.pend i (hS i h2)
+            simp only [Bool.and_eq_true, decide_eq_true_eq]
+            exact ⟨decide_eq_true (by omega), decide_eq_true (by omega)⟩
+        | false =>
           have : landS g ls i = 0 := by
             cases Nat.eq_zero_or_pos (landS g ls i) with
             | inl h0 => exact h0
-            | inr hpos => have := (hraced i (Or.inr (by omega))).1; simp [isStock, hkd] at this
+            | inr hpos => have := (hraced i (Or.inr (by omega))).2; rw [hrc] at this; cases this
           simp [this]
-      · intro i _
-        simp [snapOf, landProc]
+      all_goals
+        have : landS g ls i = 0 := by
+          cases Nat.eq_zero_or_pos (landS g ls i) with
+          | inl h0 => exact h0
+          | inr hpos => have := (hraced i (Or.inr (by omega))).1; simp [isStock, hkd] at this
+        simp [this]
+    · intro i _
+      simp [snapOf, landProc]
+
+
+/-- the settle step: the state is that of a `land` of everything outstanding; the exactly-once equalities hold -/
+theorem settle_inv {kinds g r} (h : TInv kinds g r) :
+    TInv kinds (tstep g .settle).1 r ∧
+    (tcheckStep kinds r .settle (snapOf g.st) (snapOf (tstep g .settle).1.st) (tstep g .settle).2).1 =
+      Spec.Fails.none := by
+  obtain ⟨h1, _⟩ := land_inv (fun i => (g.st.pool i).queued) g.pendS h
+  refine ⟨h1, ?_⟩
+  have hkindp : ∀ i, (g.st.pool i).kind = kindOf kinds i := fun i => compInvR_kind _ _ _ _ _ (h.inv.comp i)
+  have hS : ∀ i, landS g g.pendS i = g.pendS i := fun i => by simp [landS]
+  have hp0 : ∀ i, ¬ (isStock (kindOf kinds i) = true ∧ r.raced i = true) → g.pendS i = 0 := by
+    intro i hn
+    cases Nat.eq_zero_or_pos (g.pendS i) with
+    | inl h0 => exact h0
+    | inr hpos => obtain ⟨p1, p2, _⟩ := h.pend i (by omega); exact absurd ⟨p1, p2⟩ hn
+  simp only [tstep, tcheckStep, landStep, Spec.Fails.none, Spec.Fails.mk.injEq, Bool.not_eq_false', Spec.allBelow,
+    List.all_eq_true, Bool.and_eq_true, List.mem_range]
+  refine ⟨?_, ?_, ⟨by decide, ?_⟩, by decide⟩
+  · intro i _
+    refine ⟨⟨by simp [snapOf, landProc], by simp [snapOf, landProc]⟩, ?_⟩
+    have hc := h.inv.comp i
+    have hk := hkindp i
+    cases hkd : kindOf kinds i <;> simp only [snapOf, landProc, landN, hk, hkd] <;> simp
+    case simpleRec =>
+      cases hrc : r.raced i with
+      | true =>
+        rw [hrc, compInvR_raced _ _ _ _ (by simp [isStock, hkd])] at hc
+        obtain ⟨_, _, _, _, _, hn⟩ := hc
+        simp [hkd] at hn; exact hn
+      | false =>
+        have hci := compInvR_elim _ _ _ _ _ hc (Or.inr hrc)
+        rw [hkd] at hci
+        exact hci.2.2.2.1
+    case batchRec =>
+      cases hrc : r.raced i with
+      | true =>
+        rw [hrc, compInvR_raced _ _ _ _ (by simp [isStock, hkd])] at hc
+        obtain ⟨hd, _, hst, _, _, hn⟩ := hc
+        simp [hkd] at hn
+        simp [hd, hst]; omega
+      | false =>
+        have hci := compInvR_elim _ _ _ _ _ hc (Or.inr hrc)
+        rw [hkd] at hci
+        obtain ⟨_, hst, _, hn, hdq, _⟩ := hci
+        cases hd : r.dead i with
+        | true => have := hdq hd; simp [hst, hd, this]; omega
+        | false => simp [hst, hd]
+  · intro i _
+    have hc := h.inv.comp i
+    cases hkd : kindOf kinds i <;> simp only [snapOf, landProc, hS]
+    case simpleRec | batchRec =>
+      cases hrc : r.raced i with
+      | true =>
+        have hst : isStock (kindOf kinds i) = true := by simp [isStock, hkd]
+        have hsum := h.sum i hst hrc
+        rw [hrc, compInvR_raced _ _ _ _ hst] at hc
+        simp [hc.1, hsum]
+      | false =>
+        have hz := hp0 i (by simp [hrc])
+        have hci := compInvR_elim _ _ _ _ _ hc (Or.inr hrc)
+        rw [hkd] at hci
+        simp [hz]
+        first | exact hci.2.2.1 | exact hci.2.2.1
+    all_goals
+      have hz := hp0 i (by simp [isStock, hkd])
+      simp [hz]
+  · intro i _
+    simp [snapOf, landProc]
+
+theorem tstep_inv {kinds g r} (op : TOp) (h : TInv kinds g r) :
+    TInv kinds (tstep g op).1 (tcheckStep kinds r op (snapOf g.st) (snapOf (tstep g op).1.st) (tstep g op).2).2 ∧
+    (tcheckStep kinds r op (snapOf g.st) (snapOf (tstep g op).1.st) (tstep g op).2).1 = Spec.Fails.none := by
+  cases op with
+  | api o => exact api_inv o h
+  | land ln ls => exact land_inv ln ls h
+  | settle => exact settle_inv h
 
 theorem tcheckFrom_none {kinds} (ops : List TOp) : ∀ (g : TSt) (r : Spec.TP.Ref), TInv kinds g r →
     tcheckFrom kinds r (snapOf g.st) ops (trunFrom g ops) = Spec.Fails.none := by
@@ -245,6 +392,6 @@ theorem trunFrom_length (g : TSt) (ops : List TOp) : (trunFrom g ops).length = o
   | cons op rest ih => simp [trunFrom, ih]
 
 theorem tinv_init (kinds : List PKind) : TInv kinds { st := TP.init kinds } {} :=
-  ⟨Lemmas.inv_init kinds, fun i hp => absurd rfl hp⟩
+  ⟨Lemmas.inv_init kinds, fun i hp => absurd rfl hp, fun i _ hr => by simp at hr⟩
 
 end Otel.C15.LagLemmasT
